@@ -19,12 +19,16 @@ RULE = ("the full decision table skipped x rate {0, 1/4, 1/2, float(0.1), 1, 3/2
         "over ratio x draw with scripted random, and over histories of 2-3 S3 cassettes with a size-band calculator living in "
         "one process (created one after the other / interleaved / one saving in between; same or other bucket; a twin with "
         "other content in the same size bands), each drawing from the generator it constructed itself: every decision "
-        "follows the rule on the tapped draw and cassettes with the same history decide the same; seeded real-Random histories run twice and as content/outcome-varied twins; "
+        "follows the rule on the tapped draw and cassettes with the same history decide the same; seeded real-Random histories run twice and as content/outcome-varied twins, "
+        "for an ordinary seed and for every kind of value Random accepts (0, 0.0, '', b'', False, True, negative, 2**40, 2**64+1, "
+        "text, bytes; two classes with different fractional rates), the decisions also compared with the documented rule applied "
+        "to the stream of random.Random(seed) itself; "
         "non-trivial = a row where the draw decides or a force/discard interacts; distinct = distinct case")
 ASSUMPTIONS = ["the Mersenne Twister is an oracle stream; uniformity is assumed, the kept fraction over a seeded history is "
                "reported as an observation only",
                "sampling rates and draws are dyadic rationals or the exact value of a float, compared exactly"]
-TRUSTED = ["harness-side re-statement of the documented policy (keep_expected) used by the direct predicate"]
+TRUSTED = ["harness-side re-statement of the documented policy (keep_expected) used by the direct predicate",
+           "random.Random(seed) of the interpreter as the reference stream a seed stands for"]
 THEOREMS = ["C17_keep_policy", "C17_ignore_forcing", "C17_force_does_not_leak", "C17_reproducible", "C17_fraction",
             "C17_s3_sampling"]
 
@@ -138,7 +142,7 @@ def generate(rng, tier):
     # every value random.Random accepts is a seed: zero and the other falsy ones, negative, huge, text and bytes - each
     # with a history that mixes two classes of different fractional rates (the decisions of Random(seed) itself are the
     # reference: "reproducible from the seed")
-    n = 40 if tier == "quick" else 400
+    n = 40 if tier == "quick" else 200
     for k, (seed, seed_type) in enumerate(EDGE_SEEDS):
         ra, rb = [RATES[1], RATES[2], TENTH][k % 3], [RATES[2], TENTH, RATES[1]][k % 3]
         runs_a, runs_b = [], []
@@ -307,7 +311,9 @@ MANIFEST = dict(
          "is hit exactly) run on the real TapeRecorder in histories of three, cassette-call kinds and recorder fields compared "
          "with the model; the real S3TapeCassette._should_sample against the model rule, single decisions with a scripted draw "
          "and histories of several cassettes in one process with their own generators (tapped draws). Direct predicate: harness-side "
-         "re-statement of the policy incl. draws consumed; seeded histories twice and as content/outcome-varied twins.",
+         "re-statement of the policy incl. draws consumed; seeded histories twice and as content/outcome-varied twins, over ordinary "
+         "and edge seeds (0 and the other falsy values, negative, huge, text, bytes), and against the rule applied to "
+         "random.Random(seed) itself.",
     note="Trusted: Coq kernel + vm_compute, hand-written model, correspondence harness, harness-side policy re-statement. The "
          "random generator is an oracle stream (uniformity assumed; kept fraction over seeded histories reported, never a "
          "violation by itself).",
